@@ -2,7 +2,7 @@ INIT Init
 NEXT Next
 CONSTANTS
   Shapes <- cShapes
-  SymNames <- cSyms
+  SymNames <- cSymsCluster
   NameSeq <- cNoSeq
   SensorNames <- cSensors
   ReadingNames <- cReadings
